@@ -215,9 +215,6 @@ func check(c Case) ev.Verdict {
 		return v
 	}
 	missingDue := alt == ref.COK && (cause == ref.CParentUnreachable || (cause == ref.CAbsentMember && op.Op != "test"))
-	if c.Opts.Ensure && op.Op == "add" {
-		missingDue = false
-	}
 	if missingDue && !isM {
 		v.Err = fmt.Errorf("operation %d (%s) fails with %s but errors.Is(err, ErrMissing) is false: %v", want.FailAt, op.Op, cause, got.Err)
 		return v
